@@ -94,7 +94,7 @@ func c27Prove(t interface{ Fatalf(string, ...interface{}) }, path []byte, root c
 	return merkle.MerkleProve(path, root)
 }
 
-const c27Rule = "lists of 1..200 values (0..100 bytes, 64/65-byte values and occasional duplicates included), exhaustive list sizes 1..64 (quick) / 1..600 (thorough) with every member; " +
+const c27Rule = "lists of 1..200 values (0..100 bytes, 64/65-byte values and occasional duplicates included), exhaustive list sizes 1..64 (quick) / 1..600 (thorough) with every member (all paths of a list generated back to back, then each re-checked: unchanged bytes, still proves its member); " +
 	"mutations of a genuine path: value bytes, one sibling hash, direction byte, dropped/added level, trailing bytes, internal node presented as value (with and without prefix byte), other root; " +
 	"non-trivial = list size >= 2 for completeness cases, every mutated path for soundness cases; distinct = different (seed, size, member) or (list, member, mutation)"
 
@@ -136,17 +136,33 @@ func TestC27_ExhaustiveMembers(t *testing.T) {
 		if ref := newC26Ref(hashes).mth(0, n); root != ref {
 			harn.Violation(t, "C27", map[string]interface{}{"seed": seed, "n": n}, "HashFullTreeWithLeafHash of %d leaves differs from the RFC 6962 tree hash", n)
 		}
+		var held, heldCopy [][]byte
 		for i, v := range vals {
 			path, err := merkle.MerkleLeafPath(v, hashes)
 			if err != nil {
 				harn.Violation(t, "C27", map[string]interface{}{"seed": seed, "n": n, "member": i}, "MerkleLeafPath for member %d of %d: %v", i, n, err)
 			}
+			held, heldCopy = append(held, path), append(heldCopy, append([]byte{}, path...))
 			got, err := merkle.MerkleProve(path, root)
 			if err != nil || !bytes.Equal(got, v) {
 				harn.Violation(t, "C27", map[string]interface{}{"seed": seed, "n": n, "member": i, "path": fmt.Sprintf("%x", path)},
 					"path of member %d of %d does not prove its value against the list root: got %x err %v", i, n, got, err)
 			}
 			ev.Case(n >= 2, fmt.Sprintf("member seed=%d n=%d i=%d", seed, n, i))
+		}
+		// a path is a value: the paths of all members, generated back to back (as the proof RPC and the
+		// cross-chain manager do for the keys of a block), stay what they were and keep proving their member
+		for i, v := range vals {
+			if !bytes.Equal(held[i], heldCopy[i]) {
+				harn.Violation(t, "C27", map[string]interface{}{"seed": seed, "n": n, "member": i},
+					"the path returned for member %d of %d changed after later MerkleLeafPath calls: was %x, is %x", i, n, heldCopy[i], held[i])
+			}
+			got, err := merkle.MerkleProve(held[i], root)
+			if err != nil || !bytes.Equal(got, v) {
+				harn.Violation(t, "C27", map[string]interface{}{"seed": seed, "n": n, "member": i},
+					"the path of member %d of %d, kept while the other members' paths were generated, no longer proves its value: got %x err %v", i, n, got, err)
+			}
+			ev.Class("member:path-held-across-calls")
 		}
 		// non-members
 		for j := 0; j < 3; j++ {
